@@ -29,6 +29,10 @@ CHECKS = {
    tech="explicit-state exploration of the real debugger step function with a per-state denotation invariant against the consensus evaluator",
    text="The subject is the transition system CldbRun::step/run_step itself. Every (program, environment) of two finite families (all CLVM trees with <= 4 (thorough 5) leaves over a 16-atom alphabet x 3 environments; well-formed nested expressions of depth <= 2 over f r l c + = i a x 2 environments) is stepped from the initial state to termination; in every visited state the continuation stack is reified and evaluated with clvmr and must denote the program's consensus result; every emitted row with operator, arguments and value is re-evaluated with clvmr; row numbering, termination (Final / Throw / Failure) and hex-vs-source equality are checked. All traces are traces of the implementation (no separate model).",
    note="Trusted: clvmr; row texts are re-read with the modern reader (round trip established by C09). Known findings: F15 (pair in operator position) and F25 (pending `i` operator rows), matched by input class / symptom."),
+ "C14": dict(engine="crashmc", cat="exploration", ref="DESIGN.md 4/C14",
+   tech="bounded exhaustive token-soup / single-mutation neighbourhood / raw-byte enumeration over every entry point, in isolated worker processes with a wall-clock watchdog",
+   text="Every token sequence of <= 3 (thorough 4) tokens over a 24-token alphabet on 13 entry points (compile through the library entry and in 5 dialects, assemble+disassemble, brun, cldb, dependency listing, unused-argument check, preprocess, REPL), every 4 (5)-token sequence on the reader-level entry points, every single-token deletion / duplication / adjacent swap and every truncation of 13 seed programs and of shipped sources, every byte string of length <= 2 and class strings of length 3 (4) on the binary/hex/assembler entry points, and ~850 include-file contents under 3 host programs. Panics are caught and identified by source site; aborts/stack overflows/hangs kill only the worker and are bisected to one case; every located compiler error is checked to name a real text and to lie inside it.",
+   note="'never loops' is decided as 'within 10 s'. Mutation neighbourhoods of seeds, not all byte strings. Known finding F26 (usecheck non-termination on ill-formed recursive programs) is matched by entry point + input class; the quick tier leaves usecheck out for that class because each occurrence costs the full wall limit."),
  "C15": dict(engine="parsemc", cat="model_checking", ref="DESIGN.md 4/C15",
    tech="explicit-state exploration of the byte-at-a-time reader over all strings up to a length bound, locations checked against an independent tokenizer",
    text="The reader is a state machine (ParsePartialResult::push); every string of length <= 5 (thorough 7) over a 16-symbol alphabet covering every lexical class, and every sequence of <= 4 (5) token/separator units over 15 tokens x 4 separators (multi-line, comments, both quote styles with escapes, #-forms, dotted tails), is pushed byte by byte from the initial state, finalized and also parsed whole. An independent tokenizer gives every leaf's exact span and every list's parentheses; whole vs byte-wise results are compared including locations; error locations must be in bounds. states = strings reached, transitions = push calls.",
